@@ -41,7 +41,7 @@ CHECKS = {
   "sim default latency model; fake signing; model EC backend", "DESIGN §3 C19"),
  "C09": (True, "certstoremc", "model_checking",
   "explicit-state BFS over operation histories of the real certstore.Store against an in-memory reference model",
-  "Breadth-first search over all operation sequences (create/open variants, 13 kinds of put incl. every delta shape and every rejection class, subscribe/receive/unsubscribe) to depth 6 (thorough 8), deduplicated on reference+subscription state; after every step every observable (Get, GetRange, Latest, GetPowerTable for first-1..latest+2, subscriber channels) is compared with a boring reference store; checkpoints are crossed densely (frequency 3) and once at the real 1440 boundary.",
+  "Breadth-first search over all operation sequences (create/open variants, 13 kinds of put incl. every delta shape and every rejection class, a valid put whose 1st / 2nd / 3rd datastore write fails with an injected error, subscribe/receive/unsubscribe) to depth 6 (thorough 8), deduplicated on reference+subscription state; after every step every observable (Get, GetRange, Latest, GetPowerTable for first-1..latest+2, subscriber channels) is compared with a boring reference store; checkpoints are crossed densely (frequency 3) and once at the real 1440 boundary.",
   "the concurrent-readers/writers clause is decided by the interleaving pass (engine E2: two writers, a reader and a subscriber on the source-instrumented store, all schedules with <=2 preemptions, plus a free-running race-detector pass); in-memory datastore; checkpoint frequency lowered via injected accessor", "DESIGN §3 C09"),
  "C10": (True, "certstoremc", "fault_enumeration",
   "exhaustive crash-point enumeration over the recorded datastore write log of every operation of every history",
@@ -49,7 +49,7 @@ CHECKS = {
   "crash = stop between two datastore writes, single writes atomic; in-memory datastore", "DESIGN §3 C10"),
  "C17": (True, "certstoremc", "exploration",
   "bounded-exhaustive enumeration of stores, export end points and snapshot corruptions (every truncation, every block-level edit)",
-  "All stores of a grid (first instance, length, delta patterns, checkpoint frequency 3 plus one 1445-certificate store at the production frequency) are exported at every end point and re-imported: the imported store must be observationally identical and the digest must be the blake2b-256 of the bytes; every byte truncation, dropped/duplicated/swapped/surplus block, empty block at every position (alone or followed by surplus / repeat / garbage), header or manifest disagreement (incl. a permuted or duplicated header table against a pinning manifest) and altered (also compensated) delta must be rejected without panic.",
+  "All stores of a grid (first instance, length, delta patterns, checkpoint frequency 3 plus one 1445-certificate store at the production frequency and one store with 8000 members) are exported at every end point and re-imported: the imported store must be observationally identical and the digest must be the blake2b-256 of the bytes; every byte truncation, dropped/duplicated/swapped/surplus block, empty block at every position (alone or followed by surplus / repeat / garbage), header or manifest disagreement (incl. a permuted or duplicated header table against a pinning manifest) and altered (also compensated) delta must be rejected without panic.",
   "in-memory datastores; snapshots from the repository's exporter", "DESIGN §3 C17"),
  "C04": (True, "certsenum", "exploration",
   "bounded-exhaustive enumeration of corrupted certificate chains and of a complete small power-table universe against independent reference predicates",
@@ -73,7 +73,7 @@ CHECKS = {
   "no storage errors, single node per identity; inbound topic validator removed; opaque signatures; mock clock that never advances (the participant stays idle, the harness decides what is broadcast); the finalize goroutine is stepped through ec.Finalize of the harness's EC and the rebroadcast-store mutex; broadcast requests are for instances above the latest certificate", "DESIGN §3 C12"),
  "C16": (True, "certexmc", "model_checking",
   "exhaustive enumeration of (store, request) pairs against the real server read by a raw wire reader, and of all responder scripts up to a depth against the real poller",
-  "Server: every store of length 0..5 (7) at first instance 0 and 5 x every first / limit / power-table combination incl. boundary and overflowing values is served by the real certexchange.Server over mocknet and read both by a raw stream reader (everything on the wire) and by the production client; the response must be the byte-exact store slice, at most limit certificates, none at or beyond the advertised pending instance, the right power table. Poller: every script of up to 2 (3) behaviours out of 12 Byzantine/honest responder behaviours x client/peer holdings (incl. certificates gained locally before the poll and while the request is in flight), each followed by a poll of an honest peer: the store must only gain genuine certificates, never beyond the valid in-sequence prefix sent, NextInstance must equal the store, and honest / illegal / lagging peers must be classified as such.",
+  "Server: every store of length 0..5 (7) at first instance 0 and 5 x every first / limit / power-table combination incl. boundary and overflowing values is served by the real certexchange.Server over mocknet and read both by a raw stream reader (everything on the wire) and by the production client; the response must be the byte-exact store slice, at most limit certificates, none at or beyond the advertised pending instance, the right power table. Poller: every script of up to 2 (3) behaviours out of 12 Byzantine/honest responder behaviours x client/peer holdings (incl. certificates gained locally before the poll and while the request is in flight), each followed by a poll of an honest peer: the store must only gain genuine certificates, never beyond the valid in-sequence prefix sent, NextInstance must equal the store, and honest / illegal / lagging peers must be classified as such; the store gains exactly the valid prefix (no less, unless the peer reset a stream). Client: responses that start late or early, skip, repeat or go back are never handed to the caller out of sequence.",
   "mocknet; fake signing; poller driven through its public API", "DESIGN §3 C16"),
  "C20": (True, "pollmc", "model_checking",
   "exhaustive enumeration of per-tick production patterns on the production polling loop under a mock clock, with a reference predictor",
@@ -81,7 +81,7 @@ CHECKS = {
   "mocknet + mock clock; unexported run/poll reached through an injected accessor; reference predictor mirrors predictor.go", "DESIGN §3 C20"),
  "C18": (True, "chainexmc", "model_checking",
   "explicit-state BFS over lookup / broadcast / flood / prune histories on the real chain exchange with property-level monitors",
-  "Breadth-first search to depth 5 (thorough 7) over histories of lookups, own broadcasts, admitted remote broadcasts, remote broadcasts rejected for every reason in the statement, floods of capacity+1 unsolicited chains, prunes and a progress change on the real PubSubChainExchange (validator and caching routines called synchronously), deduplicated on both LRU caches in order: a lookup never returns a chain with another key or an unadmitted/pruned chain, every prefix is retrievable right after admission, inadmissible broadcasts are never admitted, an asked-for chain that was admitted survives floods while the wanted capacity holds, pruning removes exactly the lower instances. The started service is also run end to end (own / remote broadcast in both orders, start context cancelled or kept).",
+  "Breadth-first search to depth 5 (thorough 7) over histories of lookups, own broadcasts, admitted remote broadcasts, remote broadcasts rejected for every reason in the statement, floods of capacity+1 unsolicited chains, prunes and a progress change on the real PubSubChainExchange (validator and caching routines called synchronously), deduplicated on both LRU caches in order: a lookup never returns a chain with another key (recomputed from the tipsets it holds; the caller builds a fork on every chain it is given) or an unadmitted/pruned chain, every prefix is retrievable right after admission, inadmissible broadcasts are never admitted, an asked-for chain that was admitted survives floods while the wanted capacity holds, pruning removes exactly the lower instances. The started service is also run end to end (own / remote broadcast in both orders, start context cancelled or kept).",
   "no network: validator and caching routines driven through an injected accessor; the lookup-vs-admit-vs-own-broadcast interleavings are decided by the interleaving pass (engine E2, <=2 preemptions) plus a free-running race-detector pass; mock clock", "DESIGN §3 C18"),
  "C14": (True, "encenum", "exploration",
   "bounded-exhaustive enumeration of single-field perturbations of signed payloads for every chain length, and of all truncations / small byte deviations of valid encodings of every codec type",
